@@ -723,13 +723,29 @@ increment must not be naught");
 		tmp = __seq_this(clo.fst, &clo);
 	}
 
-	for (; __in_range_p(dt_fixup(tmp), &clo); tmp = __seq_next(tmp, &clo)) {
+	while (__in_range_p(dt_fixup(tmp), &clo)) {
 		struct dt_dt_s tgt = tmp;
+		struct dt_dt_s nxt;
 
 		if (LIKELY(ofmt == NULL)) {
 			tgt = dt_dtconv(tgttyp, tmp);
 		}
 		dt_io_write(tgt, ofmt, NULL, '\n');
+
+		nxt = __seq_next(tmp, &clo);
+		if (UNLIKELY(!dt_sandwich_only_t_p(tmp) &&
+			     dt_dtcmp(nxt, tmp) * clo.dir <= 0)) {
+			/* the increment has stopped moving the value, e.g.
+			 * days on a business day date in front of a weekend,
+			 * we'd be here forever */
+			if (!argi->quiet_flag) {
+				error("\
+increment does not advance the sequence any further");
+			}
+			rc = 1;
+			break;
+		}
+		tmp = nxt;
 	}
 
 out:
